@@ -12,7 +12,7 @@ import json, os, re, shutil, subprocess, sys, tempfile, time, glob
 
 V = os.path.dirname(os.path.abspath(__file__))  # /verif, or a snapshot of it (vp run)
 OUT = os.environ.get('VERIF_OUT', V)  # evidence/ and replays/ go here (mutation testing redirects it)
-NCPU = os.cpu_count() or 8
+NCPU = int(os.environ.get("VERIF_NCPU", "0")) or os.cpu_count() or 8
 
 # property -> parameters. n = worlds per tier (upper bound), budget = seconds per worker, batch = worlds per process
 PROPS = {
